@@ -1766,7 +1766,7 @@ func (e *Env) execSnapshot(what string, op *Op) {
 	// a refinement derived before the writes is itself a snapshot (of M ∪ / ∩ its leaf)
 	var t1 *sod.Search
 	var E1 map[string]bool
-	if dl, ok := op.Aux["derive"].(map[string]interface{}); ok {
+	if dl, ok := op.Aux["derive"]; ok && dl != nil {
 		var l Leaf
 		reJSON(dl, &l)
 		if ls, lc := e.m.evalLeaf(l); lc == OK {
@@ -1855,7 +1855,7 @@ func (e *Env) execSnapshot(what string, op *Op) {
 	}
 	// refinements derived AFTER the writes still work on the snapshot: And narrows M, Or adds
 	// what matches now; neither may disturb the parent or a sibling derived earlier
-	if dl, ok := op.Aux["derive2"].(map[string]interface{}); ok {
+	if dl, ok := op.Aux["derive2"]; ok && dl != nil {
 		var l Leaf
 		reJSON(dl, &l)
 		if ls, lc := e.m.evalLeaf(l); lc == OK {
